@@ -81,7 +81,15 @@ func runSolver(ctx context.Context, sv Solver, file string, timeoutS int) solveO
 	err := cmd.Run()
 	d := time.Since(t0).Seconds()
 	txt := out.String()
-	first := strings.TrimSpace(strings.SplitN(txt, "\n", 2)[0])
+	first := ""
+	for _, l := range strings.Split(txt, "\n") {
+		l = strings.TrimSpace(l)
+		if l == "" || strings.HasPrefix(l, "WARNING") {
+			continue // z3 warns (e.g. about an unusable pattern) before answering
+		}
+		first = l
+		break
+	}
 	st := "error"
 	switch first {
 	case "sat", "unsat", "unknown":
